@@ -491,6 +491,7 @@ func ruleC04(c *Ctx, r *Result) {
 		}
 	}
 	r.Floor("C04.2", 8)
+	c.reservedSpanCovers(r, "C04.6")
 
 	// C04.3 allocator cursor and raw writes
 	for _, fn := range c.LibFuncs() {
@@ -1179,4 +1180,167 @@ func (c *Ctx) sentinelRule(r *Result, rule string) {
 	}
 	r.Floor(rule, 1)
 	_ = n
+}
+
+func init() {
+	registry["C04"].Meta.Rules["C04.6"] = "a span reserved for structures written at fixed offsets covers each of them to its last byte: reserved base + span >= fixed address + serialized size (sizes and addresses evaluated as constants through constructors and Size methods); otherwise the next allocation lands on the tail of the last structure"
+}
+
+// reservedSpanCovers: in a function that reserves a span with Allocate, tests the returned base against a constant and then
+// writes objects at constant addresses: each object with a Size method must end inside the span.
+func (c *Ctx) reservedSpanCovers(r *Result, rule string) {
+	n := 0
+	for _, fn := range c.LibFuncs() {
+		if shortPkg(fnPkgPath(fn)) != "hdf5" {
+			continue
+		}
+		// the reservation: Allocate(span) whose result is compared with a constant base
+		var span ssa.Value
+		base := int64(-1)
+		for _, b := range fn.Blocks {
+			ifi, ok := b.Instrs[len(b.Instrs)-1].(*ssa.If)
+			if !ok {
+				continue
+			}
+			bo, ok := ifi.Cond.(*ssa.BinOp)
+			if !ok || (bo.Op != token.NEQ && bo.Op != token.EQL) {
+				continue
+			}
+			ex, ok := bo.X.(*ssa.Extract)
+			if !ok {
+				continue
+			}
+			call, ok := ex.Tuple.(*ssa.Call)
+			if !ok || !strings.HasSuffix(c.calleeName(call), ".Allocate") {
+				continue
+			}
+			if k, ok := c.constEval(bo.Y); ok {
+				base = k
+				span = call.Call.Args[len(call.Call.Args)-1]
+			}
+		}
+		if span == nil {
+			continue
+		}
+		spanK, spanOK := c.constEval(span)
+		for _, site := range callsIn(fn) {
+			call, ok := site.(*ssa.Call)
+			if !ok {
+				continue
+			}
+			addr, ok := c.fileWriteAddr(site)
+			if !ok || len(call.Call.Args) == 0 {
+				continue
+			}
+			addrK, ok := c.constEval(addr)
+			if !ok || addrK < base {
+				continue
+			}
+			// the written object's serialized size: its Size method
+			recv := call.Call.Args[0]
+			if !isPointerToStruct(recv.Type()) {
+				continue
+			}
+			named, _ := recv.Type().Underlying().(*types.Pointer).Elem().(*types.Named)
+			if named == nil {
+				continue
+			}
+			sizeFn := c.Prog.LookupMethod(recv.Type(), named.Obj().Pkg(), "Size")
+			if sizeFn == nil || sizeFn.Blocks == nil || len(sizeFn.Params) != 1 {
+				continue
+			}
+			e := &cenv{c: c, param: map[*ssa.Parameter]cval{}}
+			sub := &cenv{c: c, param: map[*ssa.Parameter]cval{sizeFn.Params[0]: e.object(recv)}, depth: 1}
+			var sz cval
+			if sub.simulate(sizeFn) && len(sub.ret.Results) == 1 {
+				sz = sub.eval(sub.ret.Results[0])
+			}
+			n++
+			cons := c.Name(fn) + "#" + c.calleeName(call) + "#inside-reserved-span"
+			if !spanOK || !sz.known {
+				r.Undec(rule, cons, c.InstrPos(call), "span or serialized size is not a constant the evaluator can compute")
+				continue
+			}
+			r.Check(addrK+sz.n <= base+spanK, rule, cons, c.InstrPos(call), "structure at "+itoa(int(addrK))+" with serialized size "+itoa(int(sz.n))+" ends at "+itoa(int(addrK+sz.n))+"; the reserved span ["+itoa(int(base))+", "+itoa(int(base+spanK))+") must contain it")
+		}
+	}
+	if n == 0 {
+		r.Undec(rule, "hdf5#reserved-span", "", "no fixed-offset write of an object with a Size method inside a reserved span found")
+	}
+}
+
+func init() {
+	registry["C04"].Meta.Rules["C04.7"] = "a symbol table node loaded for modification accepts no more entries than its fixed on-disk size holds: its capacity is at most the node size the writers serialize (maxEntries of WriteAt) or the number of entries it already had"
+	registry["C04"].Rules = append(registry["C04"].Rules, func(c *Ctx, r *Result) {
+		fn := c.Fn(r, "structures.ParseSymbolTableNode")
+		if fn == nil {
+			return
+		}
+		// the node size the writers serialize
+		kw := int64(-1)
+		for _, g := range c.LibFuncs() {
+			for _, site := range callsIn(g) {
+				if c.calleeName(site) != "structures.SymbolTableNode.WriteAt" {
+					continue
+				}
+				args := site.Common().Args
+				if len(args) < 5 {
+					continue
+				}
+				if k, ok := c.constEval(args[4]); ok && (kw < 0 || k < kw) {
+					kw = k
+				}
+			}
+		}
+		if kw < 0 {
+			r.Undec("C04.7", c.Name(fn)+"#capacity-within-node-size", c.Pos(fn.Pos()), "no constant maxEntries at the WriteAt call sites")
+			return
+		}
+		fb := c.FB(fn)
+		var numSymbols ssa.Value
+		for _, fs := range c.DirectFieldStores(fn) {
+			if fs.Fn == fn && fs.Key == "structures.SymbolTableNode.NumSymbols" {
+				numSymbols = fs.Val
+			}
+		}
+		found := false
+		instrs(fn, func(in ssa.Instruction) {
+			mk, ok := in.(*ssa.MakeSlice)
+			if !ok || !strings.Contains(typeShort(mk.Type()), "SymbolTableEntry") {
+				return
+			}
+			found = true
+			var edges []ssa.Value
+			var collect func(v ssa.Value, d int)
+			collect = func(v ssa.Value, d int) {
+				v = stripConv(v)
+				if phi, ok := v.(*ssa.Phi); ok && d < 4 {
+					for _, e := range phi.Edges {
+						collect(e, d+1)
+					}
+					return
+				}
+				edges = append(edges, v)
+			}
+			collect(mk.Cap, 0)
+			ok2 := true
+			why := ""
+			for _, e := range edges {
+				if k, isK := constInt(e); isK {
+					if k > kw {
+						ok2, why = false, "constant capacity "+itoa(int(k))+" exceeds the serialized node size "+itoa(int(kw))
+					}
+					continue
+				}
+				if numSymbols != nil && fb.prove(fb.lin(numSymbols).add(fb.lin(e), -1), nil, 3) {
+					continue
+				}
+				ok2, why = false, "a capacity of more than the entries already present is granted"
+			}
+			r.Check(ok2, "C04.7", c.Name(fn)+"#capacity-within-node-size", c.InstrPos(mk), "capacity of a loaded node <= max("+itoa(int(kw))+", entries already present) "+why)
+		})
+		if !found {
+			r.Undec("C04.7", c.Name(fn)+"#capacity-within-node-size", c.Pos(fn.Pos()), "entry slice allocation not recognised")
+		}
+	})
 }
